@@ -53,7 +53,12 @@ func schemas() [][]*S {
 		{{Kind: "container", Name: "c", Presence: true, Kids: []*S{{Kind: "choice", Name: "ch", Mandatory: true, Kids: []*S{
 			{Kind: "case", Name: "c1", Kids: []*S{lf("a"), {Kind: "choice", Name: "in", Mandatory: true, Kids: []*S{lf("i1"), lf("i2")}}}},
 			lf("b")}}}}},
-		// 8: defaults inside list entries and a list in a non-presence container with min-elements
+		// 9 (index 8): a unique leaf whose sibling sorts before it in natural order and after it in byte
+		// order (p2 / p10): lookups among "sorted" children must use one order consistently
+		{{Kind: "list", Name: "li", Key: "k", Unique: [][]string{{"p10"}}, Kids: []*S{lf("k"), {Kind: "leaf", Name: "p10", UniqVals: true}, lf("p2")}}},
+		// 10 (index 9): the same through a container
+		{{Kind: "list", Name: "li", Key: "k", Unique: [][]string{{"c/p10"}}, Kids: []*S{lf("k"), {Kind: "container", Name: "c", Kids: []*S{{Kind: "leaf", Name: "p10", UniqVals: true}, lf("p2")}}}}},
+		// 8 (index 10): defaults inside list entries and a list in a non-presence container with min-elements
 		{{Kind: "container", Name: "c", Kids: []*S{{Kind: "list", Name: "li", Key: "k", Min: 1, Kids: []*S{lf("k"), {Kind: "leaf", Name: "d", Default: "dv"}, {Kind: "container", Name: "n", Kids: []*S{{Kind: "leaf", Name: "d2", Default: "x"}}}}}}}},
 	}
 }
@@ -352,7 +357,11 @@ func run(c *engine.Ctx) {
 		budget = 9
 	}
 	for si, kids := range schemas() {
-		trees := combos(dataNodes(kids), budget)
+		b := budget
+		if si == 8 {
+			b = budget + 1 // (two entries that agree on the unique leaf, one of them with the sibling: 8 nodes)
+		}
+		trees := combos(dataNodes(kids), b)
 		c.Note(fmt.Sprintf("schema %d: %d data trees", si, len(trees)))
 		for ti, t := range trees {
 			if c.Expired() {
